@@ -23,6 +23,24 @@ pub struct IoPlan {
     pub fail_at_byte: Option<u64>,
     /// the j-th seek (0-based) fails
     pub fail_seek: Option<u64>,
+    /// kind of the injected hard error: 0 Other, 1 UnexpectedEof, 2 InvalidData, 3 BrokenPipe, 4 TimedOut, 5 ConnectionReset
+    #[serde(default)]
+    pub fail_kind: u8,
+    /// compressed sources only: the source simply ends at this byte (a truncated file): the decoder must
+    /// report an error, never a clean end of input
+    #[serde(default)]
+    pub truncate_at: Option<u64>,
+}
+
+fn err_kind(k: u8) -> io::ErrorKind {
+    match k {
+        1 => io::ErrorKind::UnexpectedEof,
+        2 => io::ErrorKind::InvalidData,
+        3 => io::ErrorKind::BrokenPipe,
+        4 => io::ErrorKind::TimedOut,
+        5 => io::ErrorKind::ConnectionReset,
+        _ => io::ErrorKind::Other,
+    }
 }
 
 #[derive(Debug, Default)]
@@ -73,13 +91,23 @@ impl Read for SimSource {
             self.stats.eintr.fetch_add(1, Ordering::Relaxed);
             return Err(io::Error::new(io::ErrorKind::Interrupted, "sim: EINTR"));
         }
-        let len = self.data.len() as u64;
+        let mut len = self.data.len() as u64;
+        if !self.healed() {
+            if let Some(t) = self.plan.truncate_at {
+                if t < len {
+                    len = t;
+                    if self.pos >= len {
+                        self.stats.hard.fetch_add(1, Ordering::Relaxed);
+                    }
+                }
+            }
+        }
         let mut n = (buf.len() as u64).min(len.saturating_sub(self.pos));
         if !self.healed() {
             if let Some(k) = self.plan.fail_at_byte {
                 if self.pos >= k {
                     self.stats.hard.fetch_add(1, Ordering::Relaxed);
-                    return Err(io::Error::other("sim: input/output error (injected)"));
+                    return Err(io::Error::new(err_kind(self.plan.fail_kind), "sim: input/output error (injected)"));
                 }
                 n = n.min(k - self.pos);
             }
@@ -221,7 +249,7 @@ macro_rules! drive {
         let model: &Vec<String> = $model;
         let h: &mut Hist = $h;
         let limit = case.take.map(|n| n.min(model.len())).unwrap_or(model.len());
-        let hard_possible = case.plan.fail_at_byte.is_some();
+        let hard_possible = case.plan.fail_at_byte.is_some() || case.plan.truncate_at.is_some();
         let mut ops = case.ops.clone();
         // every history ends with: heal, rewind, full pass
         ops.push(LOp::Heal);
@@ -371,7 +399,9 @@ fn run_case(case: &LendersCase) -> Outcome {
         }
         "zstd" => {
             let comp = zstd::encode_all(&text[..], 3).expect("zstd encode");
-            let src = SimSource::new(Arc::new(comp), case.plan.clone(), stats.clone());
+            let mut plan = case.plan.clone();
+            plan.truncate_at = plan.truncate_at.map(|t| 1 + t % (comp.len() as u64 - 1).max(1));
+            let src = SimSource::new(Arc::new(comp), plan, stats.clone());
             set_op("ZstdLineLender::new");
             match ZstdLineLender::new(src) {
                 Ok(l) => match case.take {
@@ -389,7 +419,9 @@ fn run_case(case: &LendersCase) -> Outcome {
             let mut enc = flate2::write::GzEncoder::new(Vec::new(), flate2::Compression::default());
             enc.write_all(&text).unwrap();
             let comp = enc.finish().unwrap();
-            let src = SimSource::new(Arc::new(comp), case.plan.clone(), stats.clone());
+            let mut plan = case.plan.clone();
+            plan.truncate_at = plan.truncate_at.map(|t| 1 + t % (comp.len() as u64 - 1).max(1));
+            let src = SimSource::new(Arc::new(comp), plan, stats.clone());
             set_op("GzipLineLender::new");
             match GzipLineLender::new(src) {
                 Ok(l) => match case.take {
@@ -472,7 +504,9 @@ fn run_case(case: &LendersCase) -> Outcome {
         let rew = case.ops.iter().filter(|o| matches!(o, LOp::Rewind)).count();
         format!("rew{}{}", rew.min(3), if partial { "+partial" } else { "" })
     };
-    let fk = if case.plan.fail_at_byte.is_some() {
+    let fk = if case.plan.truncate_at.is_some() {
+        "truncated"
+    } else if case.plan.fail_at_byte.is_some() {
         "hard"
     } else if case.plan.fail_seek.is_some() {
         "seek"
@@ -551,6 +585,8 @@ impl World for LendersWorld {
             eintr_burst: rng.range(1, 3),
             fail_at_byte: None,
             fail_seek: None,
+            fail_kind: rng.below(6) as u8,
+            truncate_at: None,
         };
         if big || long_lines > 0 {
             plan.max_read = plan.max_read.max(64);
@@ -583,10 +619,13 @@ impl World for LendersWorld {
         }
         if !legal_only && kind != "vec" && kind != "range" && !kind.ends_with("_file") {
             let bytes = text_of(&c).len() as u64;
-            if rng.chance(2, 3) {
-                c.plan.fail_at_byte = Some(rng.range(0, bytes.max(1)));
-            } else {
-                c.plan.fail_seek = Some(rng.range(0, 3));
+            match rng.below(6) {
+                0..=2 => c.plan.fail_at_byte = Some(rng.range(0, bytes.max(1))),
+                3 if kind == "zstd" || kind == "gzip" => {
+                    // a truncated compressed file (positions relative to the compressed size are drawn at execution)
+                    c.plan.truncate_at = Some(rng.range(1, 1 << 20));
+                }
+                _ => c.plan.fail_seek = Some(rng.range(0, 3)),
             }
         }
         // history
@@ -688,6 +727,11 @@ impl World for LendersWorld {
         if case.plan.fail_at_byte.is_some() {
             let mut c = case.clone();
             c.plan.fail_at_byte = None;
+            push(c);
+        }
+        if case.plan.fail_kind != 0 {
+            let mut c = case.clone();
+            c.plan.fail_kind = 0;
             push(c);
         }
         if case.plan.fail_seek.is_some() {
